@@ -148,6 +148,7 @@ func c12Run(kind string, ncommon int, limitSpec string, seq []int, reps int) (st
 		defer other.close()
 	}
 	mk := func(limit int32) (m3.Reporter, error) {
+		rt.SetNow(math.MaxInt64 - 1e15) // timestamps with the longest encoding
 		if first != "" {
 			o, err := m3.NewReporter(m3.Options{HostPorts: []string{other.addr}, Service: "other", Env: "test", Protocol: m3Proto(first), MaxQueueSize: 16})
 			if err != nil {
@@ -420,7 +421,7 @@ func c12Jobs(tier string) []*SeqJob {
 		}
 		return guard(func() (string, string) { c, d, _ := c12Run(ops[0], ncommon, ops[2], seq, reps); return c, d })
 	}
-	return []*SeqJob{j, c12LemmaJob(tier)}
+	return []*SeqJob{j, c12LemmaJob(tier), c12BucketTagLengthJob(tier)}
 }
 
 // c12LemmaJob: per-metric accounting. For every shape of a larger alphabet, k copies of the
@@ -455,6 +456,7 @@ func c12LemmaJob(tier string) *SeqJob {
 			skipped := false
 			k := k
 			cl, det := controlledCase(0, func() {
+				rt.SetNow(math.MaxInt64 - 1e15) // timestamps with the longest encoding
 				r, err := m3.NewReporter(m3.Options{HostPorts: []string{s.addr}, Service: "svc", Env: "test", CommonTags: common, Protocol: m3Proto(proto), MaxQueueSize: 4096, MaxPacketSizeBytes: 65000})
 				if err != nil {
 					rcl, rdet = "new-reporter", err.Error()
@@ -605,6 +607,7 @@ func c12Scenarios(tier string) []*Scenario {
 	sc.Body = func(x *Run) {
 		s := newFastSink()
 		x.Cleanup = append(x.Cleanup, s.close)
+		rt.SetNow(math.MaxInt64 - 1e15) // timestamps with the longest encoding
 		r, err := m3.NewReporter(m3.Options{HostPorts: []string{s.addr}, Service: "svc", Env: "test", MaxQueueSize: 8})
 		if err != nil {
 			x.failf("new-reporter", "%v", err)
@@ -656,6 +659,7 @@ func c12Scenarios(tier string) []*Scenario {
 		for i := 0; i < 2; i++ {
 			s := newFastSink()
 			x.Cleanup = append(x.Cleanup, s.close)
+			rt.SetNow(math.MaxInt64 - 1e15) // timestamps with the longest encoding
 			r, err := m3.NewReporter(m3.Options{HostPorts: []string{s.addr}, Service: "svc", Env: "test", MaxQueueSize: 8})
 			if err != nil {
 				x.failf("new-reporter", "%v", err)
@@ -695,4 +699,112 @@ func chargedAt(sizes []int32, i int) int32 {
 		return sizes[i]
 	}
 	return -1
+}
+
+// c12BucketTagLengthJob: the accounting lemma for every bucket of a histogram at every length of the bucket tag
+// value: HistogramBucketTagPrecision 1..130 makes the values "-infinity-<bound>", "<bound>-<bound>" and
+// "<bound>-infinity" run through every length up to ~270 bytes (the compact protocol's string length prefix grows at
+// 128 bytes, and the buckets of one histogram straddle that point at different precisions). k copies of a sample
+// in bucket i, sent as one batch, must not be longer than the envelope allowance + k x the size charged for bucket i.
+func c12BucketTagLengthJob(tier string) *SeqJob {
+	maxP := tierInt(tier, 130, 300)
+	run := func(proto string, prec, bi, k int) (string, string, int) {
+		s := newFastSink()
+		defer s.close()
+		var charged, overhead int32
+		var rcl, rdet string
+		skipped := false
+		steps := 0
+		cl, det := controlledCase(0, func() {
+			rt.SetNow(math.MaxInt64 - 1e15) // timestamps with the longest encoding
+			r, err := m3.NewReporter(m3.Options{HostPorts: []string{s.addr}, Service: "svc", Env: "test", Protocol: m3Proto(proto), MaxQueueSize: 4096, MaxPacketSizeBytes: 65000,
+				HistogramBucketTagPrecision: uint(prec)})
+			if err != nil {
+				rcl, rdet = "new-reporter", err.Error()
+				return
+			}
+			_, overhead = m3.VerifBudget(r)
+			m3.VerifSetSeqID(r, math.MaxInt32-1)
+			h := r.AllocateHistogram("h", map[string]string{"t": "v"}, tally.ValueBuckets{1, 2, 3})
+			charged = chargedAt(m3.VerifBucketChargedSizes(h), bi)
+			bounds := []float64{-math.MaxFloat64, 1, 2, 3, math.MaxFloat64}
+			b := h.ValueBucket(bounds[bi], bounds[bi+1])
+			free, _ := m3.VerifBudget(r)
+			if charged <= 0 {
+				_ = r.Close()
+				skipped = true
+				return
+			}
+			if int64(k)*int64(charged) > int64(free) {
+				k = int(free / charged)
+			}
+			for i := 0; i < k; i++ {
+				b.ReportSamples(math.MinInt64)
+				steps++
+			}
+			if err := r.Close(); err != nil {
+				rcl, rdet = "close-error", err.Error()
+			}
+		})
+		if cl != "" {
+			return cl, det, steps
+		}
+		if rcl != "" {
+			return rcl, rdet, steps
+		}
+		if skipped || k == 0 {
+			_ = s.readAvailable(nil)
+			return "", "", steps
+		}
+		dgs := s.drain(1)
+		if len(dgs) != 1 {
+			return "lemma-not-one-batch", fmt.Sprintf("%d datagrams for %d copies", len(dgs), k), steps
+		}
+		if allowed := int(overhead) + k*int(charged); len(dgs[0]) > allowed {
+			return "charged-size-below-actual-size", fmt.Sprintf("[%s, bucket tag precision %d] bucket %d of ValueBuckets{1,2,3}: a batch of %d samples-metrics is a %d-byte datagram, the reporter charges %d (envelope allowance) + %d x %d = %d",
+				proto, prec, bi, k, len(dgs[0]), overhead, k, charged, allowed), steps
+		}
+		return "", "", steps
+	}
+	j := &SeqJob{Property: "C12", Name: "accounting-lemma-every-bucket-tag-length", Shards: tierInt(tier, 4, 8), Controlled: true, NoBonus: true}
+	j.Run = func(ctx *SeqCtx) {
+		n := 0
+		for _, proto := range []string{"compact", "binary"} {
+			for prec := 1; prec <= maxP; prec++ {
+				for bi := 0; bi < 4; bi++ {
+					for _, k := range []int{1, 16} {
+						n++
+						if !ctx.Mine(n) {
+							continue
+						}
+						if ctx.Expired() {
+							return
+						}
+						proto, prec, bi, k := proto, prec, bi, k
+						steps := 0
+						cl, det := guard(func() (string, string) { c, d, s := run(proto, prec, bi, k); steps = s; return c, d })
+						ops := []string{proto, fmt.Sprint(prec), fmt.Sprint(bi), fmt.Sprint(k)}
+						ctx.Case(steps, true, func() string { return fmt.Sprint(ops) })
+						ctx.State(fmt.Sprint(ops))
+						if cl != "" {
+							ctx.Fail(cl, det, ops)
+							if ctx.viol != nil {
+								return
+							}
+						}
+					}
+				}
+			}
+		}
+		ctx.Alphabet(fmt.Sprintf("HistogramBucketTagPrecision 1..%d", maxP), "each of the four buckets of ValueBuckets{1,2,3}", "1 and 16 copies per batch", "compact, binary")
+		ctx.DepthDone(1)
+	}
+	j.Replay = func(ops []string) (string, string) {
+		var prec, bi, k int
+		fmt.Sscan(ops[1], &prec)
+		fmt.Sscan(ops[2], &bi)
+		fmt.Sscan(ops[3], &k)
+		return guard(func() (string, string) { c, d, _ := run(ops[0], prec, bi, k); return c, d })
+	}
+	return j
 }
